@@ -9,7 +9,7 @@ import c11
 from geohash_twice import Unstable, guard, shape_state, twice
 from c11 import ALPHABET, hash_of_cell, split_bits, _ranges, cell_rect
 
-MODULE = ['GeoVerif.Props.C12', 'GeoVerif.Props.C12Lattice']
+MODULE = ['GeoVerif.Props.C12', 'GeoVerif.Props.C12Lattice', 'GeoVerif.Props.C12Filled']
 THEOREMS = ['GV.Flood.' + t for t in (
     'flood_eq_reach', 'flood_schedule_independent', 'flood_sound', 'flood_has_start',
     'flood_complete_of_connected', 'flood_only_connected', 'flood_closed', 'flood_terminates', 'flood_total',
@@ -23,6 +23,17 @@ THEOREMS = ['GV.Flood.' + t for t in (
     'rect_flood_complete', 'rect_flood_exact', 'rect_flood_exact_point',
     'segTouches_iff', 'mem_segBlock', 'seg_connected', 'seg_flood_exact', 'seg_flood_exact_point',
     'polyTouches_iff', 'polyline_connected', 'polyline_flood_exact', 'polyline_flood_exact_first',
+    # Props/C12Filled: the same for a FILLED ring (closed even-odd region of pointInRing) under ParityConst, and
+    # ParityConst proved for strictly convex CCW rings => unconditional convex_filled_flood_exact
+    'first_exit', 'filled_of_boundary', 'interior_all', 'filledTouchesC_iff', 'filled_west', 'mem_ringBlock',
+    'filled_connected', 'filled_flood_exact_of', 'filled_flood_exact', 'filled_flood_exact_computable',
+    'convex_exit', 'convex_parityConst', 'convex_filledMeets_iff', 'convex_filled_flood_exact',
+    'convex_filled_flood_exact_set',
+    # ... and the axis-parallel form of ParityConst proved for EVERY ring => unconditional exactness for arbitrary
+    # (non-convex, self-intersecting) even-odd filled rings
+    'affine_same_sign', 'vert_up', 'vert_edge', 'insideEO_vert', 'horiz_edge', 'insideEO_horiz',
+    'axis_parityConst', 'ring_filledTouchesC_iff', 'ring_filled_connected', 'ring_filled_flood_exact',
+    'ring_filled_flood_exact_set',
 )]
 
 KEY_F12B = 'NiemeyerHasher._hash_polygon/curved-sliver'
